@@ -72,55 +72,58 @@ def engine_shapes(rep, cands, timeout):
 def interleavings(rep, cands, shapes):
     """N threads x K adds on one shared word; each add is one atomic step or (load; store) according to the extracted shape.
     z3 chooses the schedule (position variables), the addends and the initial value; obligation: final = init + sum."""
-    t = common.tier(); N = 2 if t == 'quick' else 3; K = 2
+    t = common.tier()
+    # (threads, adds per thread): quick 2x2; thorough adds 3x1 and 2x3 (3x2 does not finish: > 50 min for 20 engine combinations)
+    configs = [(2, 2)] if t == 'quick' else [(2, 2), (3, 1), (2, 3)]
     for w in (32, 64):
-        engines = list(shapes.keys())
+      engines = list(shapes.keys())
+      for (N, K) in configs:
         for combo in itertools.combinations_with_replacement(engines, N):
-            s = Solver(); s.set('timeout', 60000)
-            steps = []        # (thread, kind, addend, tmp)
-            # integer encoding of the mod-2^w word (the update is pure addition, so the reduction can be taken once at the end):
-            # bit-blasting cannot show that a sum of bit-vectors is independent of a symbolic order, linear integer arithmetic can
-            M = 1 << w
-            init = Int('init'); s.add(init >= 0, init < M); adds = {}
-            for ti, eng in enumerate(combo):
-                for k in range(K):
-                    a = Int(f'add_{ti}_{k}'); s.add(a >= 0, a < M); adds[(ti, k)] = a
-                    if shapes[eng].get(w, 'atomic') == 'atomic': steps.append((ti, 'rmw', a, None))
-                    else:
-                        tmp = Int(f'tmp_{ti}_{k}'); steps.append((ti, 'load', a, tmp)); steps.append((ti, 'store', a, tmp))
-            T = len(steps)
-            pos = [Int(f'pos_{i}') for i in range(T)]
-            s.add(Distinct(*pos)); s.add(*[And(p >= 0, p < T) for p in pos])
-            for i in range(T):
-                for j in range(i + 1, T):
-                    if steps[i][0] == steps[j][0]: s.add(pos[i] < pos[j])       # program order inside a thread
-            val = init
-            for tau in range(T):
-                nv = val
-                for i, (ti, kind, a, tmp) in enumerate(steps):
-                    here = pos[i] == tau
-                    if kind == 'rmw': nv = If(here, val + a, nv)
-                    elif kind == 'load': s.add(Or(Not(here), tmp == val))
-                    elif kind == 'store': nv = If(here, tmp + a, nv)
-                val = nv
-            total = init
-            for a in adds.values(): total = total + a
-            s.add((val - total) % M != 0)
-            r = s.check()
-            rep.obligations += 1
-            name = f'interleaving:w{w}:{"+".join(combo)}:{K}adds'
-            rep.nontrivial.add(name)
-            if r == unsat:
-                rep.discharged += 1
-                if len(rep.samples) < 8: rep.samples.append(f'{name}: final word = initial + sum of addends (mod 2^{w}) for every schedule of {T} steps')
-            elif r == sat:
-                m = s.model()
-                sched = sorted(range(T), key=lambda i: m.eval(pos[i]).as_long())
-                cands.append(dict(role=f'interleaving/w{w}/lost-update:{"+".join(sorted(set(e for e in combo if shapes[e].get(w) == "split")))}',
-                                  detail=f'schedule {[(steps[i][0], steps[i][1]) for i in sched]} loses an update (engines {combo})', model=None, friendly=True,
-                                  schedule=[(steps[i][0], steps[i][1]) for i in sched]))
-            else: rep.inconclusive.append(name)
-    rep.bounds['threads'] = N; rep.bounds['adds_per_thread'] = K
+              s = Solver(); s.set('timeout', 60000)
+              steps = []        # (thread, kind, addend, tmp)
+              # integer encoding of the mod-2^w word (the update is pure addition, so the reduction can be taken once at the end):
+              # bit-blasting cannot show that a sum of bit-vectors is independent of a symbolic order, linear integer arithmetic can
+              M = 1 << w
+              init = Int('init'); s.add(init >= 0, init < M); adds = {}
+              for ti, eng in enumerate(combo):
+                  for k in range(K):
+                      a = Int(f'add_{ti}_{k}'); s.add(a >= 0, a < M); adds[(ti, k)] = a
+                      if shapes[eng].get(w, 'atomic') == 'atomic': steps.append((ti, 'rmw', a, None))
+                      else:
+                          tmp = Int(f'tmp_{ti}_{k}'); steps.append((ti, 'load', a, tmp)); steps.append((ti, 'store', a, tmp))
+              T = len(steps)
+              pos = [Int(f'pos_{i}') for i in range(T)]
+              s.add(Distinct(*pos)); s.add(*[And(p >= 0, p < T) for p in pos])
+              for i in range(T):
+                  for j in range(i + 1, T):
+                      if steps[i][0] == steps[j][0]: s.add(pos[i] < pos[j])       # program order inside a thread
+              val = init
+              for tau in range(T):
+                  nv = val
+                  for i, (ti, kind, a, tmp) in enumerate(steps):
+                      here = pos[i] == tau
+                      if kind == 'rmw': nv = If(here, val + a, nv)
+                      elif kind == 'load': s.add(Or(Not(here), tmp == val))
+                      elif kind == 'store': nv = If(here, tmp + a, nv)
+                  val = nv
+              total = init
+              for a in adds.values(): total = total + a
+              s.add((val - total) % M != 0)
+              r = s.check()
+              rep.obligations += 1
+              name = f'interleaving:w{w}:{"+".join(combo)}:{N}threads:{K}adds'
+              rep.nontrivial.add(name)
+              if r == unsat:
+                  rep.discharged += 1
+                  if len(rep.samples) < 8: rep.samples.append(f'{name}: final word = initial + sum of addends (mod 2^{w}) for every schedule of {T} steps')
+              elif r == sat:
+                  m = s.model()
+                  sched = sorted(range(T), key=lambda i: m.eval(pos[i]).as_long())
+                  cands.append(dict(role=f'interleaving/w{w}/lost-update:{"+".join(sorted(set(e for e in combo if shapes[e].get(w) == "split")))}',
+                                    detail=f'schedule {[(steps[i][0], steps[i][1]) for i in sched]} loses an update (engines {combo})', model=None, friendly=True,
+                                    schedule=[(steps[i][0], steps[i][1]) for i in sched]))
+              else: rep.inconclusive.append(name)
+    rep.bounds['threads_x_adds'] = [list(c) for c in configs]
 
 
 def run():
